@@ -248,6 +248,16 @@ func runC04(rep *Report, r *Rng, tier string) {
 			}
 		}
 	}
+	if tier == "thorough" {
+		d := &DataSpec{Seed: r.U64(), NRows: 270000, Cols: []ColSpec{{Name: hx("a"), NVals: 3, Dist: "random", Style: "ascii"}, {Name: hx("b"), NVals: 2, Dist: "random", Style: "ascii"}}}
+		E := func(c, v string) *Ex { return &Ex{Op: "E", C: hx(c), V: hx(v)} }
+		qs := []QCase{{E: E("a", "0")}, {E: &Ex{Op: "A", Kids: []*Ex{E("a", "0"), E("b", "1")}}}, {E: &Ex{Op: "N", Kids: []*Ex{E("a", "1")}}}, {E: &Ex{Op: "O", Kids: []*Ex{E("a", "2"), E("b", "0")}}, GB: []string{hx("b")}}, {E: E("b", "0")}, {E: E("a", "2")}}
+		for _, cache := range []int64{1, 1 << 26} {
+			c := &ConcCase{Data: d, Preload: true, Cache: cache, Goroutines: 8, Queries: qs, Rounds: 400}
+			runConcCase(o, c, rep)
+			rep.Count("large-bitmap-configurations")
+		}
+	}
 	runLruConc(rep, r, 8, rounds*4)
 	runGrpcConc(o, rep, r, tier)
 	reportRaces(rep, "C04", last)
